@@ -169,6 +169,17 @@ def run(tier):
     rep.add_trace_stats("TraceGreedy[TLC behaviours replayed with a scripted scorer]", bstats, len(btr))
     core.judge(rep, btr, bv)
     rep.cov["behaviours_replayed_from_tlc_simulate"] = len(btr)
+    # (C') code -> spec on the repository's own selector tests, recorded through the guarded source hooks
+    from harness import hooktraces as HT
+    recs, tail = HT.record()
+    htr, skipped = HT.convert(recs)
+    if not htr:
+        raise core.Machinery("no hook traces recorded from the repository's tests (SKMATTER_VERIF hooks missing?): " + tail)
+    hv, hstats = core.validate_cases("trace/TraceGreedy.tla", [strip(t) for t in htr])
+    rep.add_trace_stats("TraceGreedy[repository tests via SKMATTER_VERIF hooks]", hstats, len(htr))
+    core.judge(rep, htr, hv)
+    rep.cov["hook_events_recorded_from_repository_tests"] = len(recs)
+    rep.cov["hook_traces_skipped_as_too_large"] = skipped
     by_cls = {}
     for t in traces:
         by_cls[t["cls"]] = by_cls.get(t["cls"], 0) + 1
